@@ -137,7 +137,19 @@ class Check(PropertyCheck):
                         if all(info.min <= x <= info.max and info.min <= y <= info.max for (x, y) in pts):
                             idt = cand
                             break
-            cases.append(G.add_history(rng, {'kind': d['kind'], 'region': d, 'qshape': qs, 'int': integer, 'idtype': idt,
+            fdt = None
+            if not integer and qs != 'scalar' and rng.random() < 0.2:
+                # narrow float query arrays: the positions are rounded to the type first, so every oracle sees the same
+                # numbers; the arithmetic with the (float64) centre must still be done in double precision
+                fdt = rng.choice(['float32', 'float32', 'float16'])
+                T = getattr(np, fdt)
+                with np.errstate(over='ignore'):
+                    narrow = [(float(T(x)), float(T(y))) for (x, y) in pts]
+                if all(math.isfinite(x) and math.isfinite(y) for (x, y) in narrow):
+                    pts = narrow
+                else:
+                    fdt = None
+            cases.append(G.add_history(rng, {'kind': d['kind'], 'region': d, 'qshape': qs, 'int': integer, 'idtype': idt, 'fdtype': fdt,
                                              'pts': [[x, y] for (x, y) in pts]}))
         return cases
 
@@ -147,6 +159,9 @@ class Check(PropertyCheck):
         xs = [p[0] for p in case['pts']]
         ys = [p[1] for p in case['pts']]
         dt = getattr(np, case.get('idtype', 'int64')) if case['int'] else float
+        if not case['int'] and case.get('fdtype'):
+            # the query arrays are float32 / float16 (the listed positions are exact in that type)
+            dt = getattr(np, case['fdtype'])
         qs = case['qshape']
         if qs == 'scalar':
             return PixCoord((int if case['int'] else float)(xs[0]), (int if case['int'] else float)(ys[0])), None
